@@ -1,6 +1,7 @@
 import Gearpy.Properties.C05
 import Gearpy.Properties.C06
 import Gearpy.Properties.C12
+import Gearpy.Proofs.UnitStep
 /-!
 # C07 — results do not depend on the units inputs are expressed in
 
@@ -14,7 +15,8 @@ picture of the code rests on:
    magnitudes once the gap exceeds the tolerance (`cmp_congr`);
 2. the **raw-value sites**, where the code reads `.value` or looks a float up, modelled on
    unit-carrying quantities and proved unit-independent one by one:
-   `grid_unit_invariant` (time axis of `Solver.run`, repairs D1/D2), `signTest_unit_invariant`
+   `step_unit_invariant` / `chain_units` (the time-step update and the chain arithmetic as the code
+   performs them on quantities), `grid_unit_invariant` (time axis of `Solver.run`, repairs D1/D2), `signTest_unit_invariant`
    (constructor tests such as `no_load_speed.value <= 0`), `wormRow_unit_invariant` (tolerant
    lookup of the worm pressure angle, repair D5), `scaledValue_si` (the motor laws'
    `Torque(value = k·T_max.value, unit = T_max.unit)`), `cmpRaw_scale` (every threshold test:
@@ -103,6 +105,24 @@ theorem wormRow_unit_invariant (g : T.Good) (degUnit : Nat) (pa pa' : Qty)
   rw [cmpDirect_si g .eq ⟨angle, row.1, degUnit⟩ pa (by show baseOf angle = baseOf pa.kind; rw [hk]; rfl),
       cmpDirect_si g .eq ⟨angle, row.1, degUnit⟩ pa' (by show baseOf angle = baseOf pa'.kind; rw [hk']; rfl), hsi]
   simp only [hu]
+
+/-- the time-step update computed by the code on quantities: two sets of operands with pairwise
+    equal SI magnitudes (any units) give results with equal SI magnitudes -/
+theorem step_unit_invariant (g : T.Good) (pos speed acc dt pos' speed' acc' dt' p v p' v' : Qty)
+    (e1 : siMag T pos = siMag T pos') (e2 : siMag T speed = siMag T speed') (e3 : siMag T acc = siMag T acc')
+    (e4 : siMag T dt = siMag T dt')
+    (h : integrateU T pos speed acc dt = .ok (p, v)) (h' : integrateU T pos' speed' acc' dt' = .ok (p', v')) :
+    siMag T p = siMag T p' ∧ siMag T v = siMag T v' := by
+  obtain ⟨a1, a2⟩ := integrateU_si g pos speed acc dt p v h
+  obtain ⟨b1, b2⟩ := integrateU_si g pos' speed' acc' dt' p' v' h'
+  rw [a1, a2, b1, b2, e1, e2, e3, e4]; exact ⟨rfl, rfl⟩
+
+/-- the chain arithmetic on quantities (transmit, drive, load, net torque) reads in SI as the SI-level model's -/
+theorem chain_units (g : T.Good) (x r : Qty) (ratio eff : Q) :
+    (transmitU T ratio x = .ok r → siMag T r = ratio * siMag T x) ∧
+    (driveU T x eff ratio = .ok r → siMag T r = siMag T x * eff * ratio) ∧
+    (loadU T x eff ratio = .ok r → siMag T r = siMag T x / eff / ratio) :=
+  ⟨transmitU_si g ratio x r, driveU_si g x r eff ratio, loadU_si g x r eff ratio⟩
 
 /-- two configurations given by SI magnitudes are equal as soon as their magnitudes are: the
     SI-level model cannot observe units -/
